@@ -219,12 +219,13 @@ class EngineSource:
             elif kind == "symstr":
                 arr, ln, alphabet = v
                 n = model.eval(ln, model_completion=True).as_long()
-                n = max(0, min(n, 200))
+                n = max(0, min(n, 2000000))
                 chars = []
-                for i in range(n):
+                for i in range(min(n, 64)):
                     c = model.eval(z3.Select(arr, i), model_completion=True).as_long()
                     chars.append(chr(c) if chr(c) in alphabet else alphabet[0])
-                out[name] = "".join(chars)
+                # beyond the first characters the content is irrelevant to coordinate obligations: filled uniformly
+                out[name] = "".join(chars) + alphabet[0] * (n - len(chars))
             elif kind == "intlist":
                 arr, ln = v
                 n = model.eval(ln, model_completion=True).as_long()
